@@ -450,4 +450,95 @@ P_C07(c) ==
                                 ELSE Rep(C2(32), olw)
               [] OTHER -> <<>>) \o ls[j]]
   IN allOk => pl(a.res) = Concat([i \in 1..k |-> Prefixed(i)])
+
+(* ---- C05: table borders form a consistent box drawing ------------------------------------------ *)
+\* the document is one regular table (plain decorator, borders on); the output is read as a grid of
+\* display columns: a wide character occupies two positions (the second holds CONT), a zero-width
+\* character none
+CONT == -7
+GridLine(ln) == IF \A i \in 1..Len(ln) : ln[i][2] = 1 THEN Codes(ln)      \* fast path: all cells one column wide
+                ELSE FoldLeft(LAMBDA acc, c : IF CWp(c) = 0 THEN acc ELSE IF CWp(c) = 2 THEN acc \o <<c[1], CONT>> ELSE Append(acc, c[1]),
+                              <<>>, NoFrags(ln))
+GridOf(res) == [y \in 1..Len(res.lines) |-> GridLine(res.lines[y])]
+At(g, y, x) == IF y >= 1 /\ y <= Len(g) /\ x >= 1 /\ x <= Len(g[y]) THEN g[y][x] ELSE 0
+IsRuleLine(gl) == gl # <<>> /\ \A x \in 1..Len(gl) : gl[x] \in RuleCodes
+IsSlashLine(gl) == gl # <<>> /\ \A x \in 1..Len(gl) : gl[x] = GV
+BarCols(gl) == {x \in 1..Len(gl) : gl[x] = BAR}
+\* (d) every rule glyph has a down-stem iff a bar stands directly below, an up-stem iff directly above
+JunctionsOK(g) ==
+  \A y \in 1..Len(g) : \A x \in 1..Len(g[y]) :
+     g[y][x] \in RuleCodes =>
+        /\ (g[y][x] \in {GB, GX}) = (At(g, y + 1, x) = BAR)
+        /\ (g[y][x] \in {GA, GX}) = (At(g, y - 1, x) = BAR)
+TableNode(dom) == LET ns == NodesSeq(dom) IN ns[CHOOSE i \in 1..Len(ns) : IsHtml(ns[i], "table")]
+\* text width of a cell when laid out on one line (whitespace collapsed)
+OneLineW(n) == LET ws == SplitWords(FlowTextSeq(n.c)) IN
+               IF ws = <<>> THEN 0 ELSE SumSeq([i \in 1..Len(ws) |-> SumW(ws[i])]) + Len(ws) - 1
+RowsOf(t) == LET secs == SelectSeq(t.c, LAMBDA x : x.k = "e" /\ x.n \in {"thead", "tbody"})
+             IN Concat([i \in 1..Len(secs) |-> SelectSeq(secs[i].c, LAMBDA x : x.k = "e" /\ x.n = "tr")])
+CellsOf(tr) == SelectSeq(tr.c, LAMBDA x : x.k = "e" /\ x.n \in {"td", "th"})
+HasSpan(cell) == HasAttr(cell, "colspan") /\ ParseInt(cell.a.colspan.c, FALSE, 1) # 1
+P_C05_run(c, run) ==
+  (IsOk(run) /\ run.res.lines # <<>>) =>
+    LET g == GridOf(run.res)
+        n == Len(g)
+        t == TableNode(Dom1(c, run))
+        rows == RowsOf(t)
+        nested == HasTable(t.c)
+        \* stacked rows are recognised by their "/" separators; a table whose rows hold a single cell
+        \* has none, so without any bar ragged lines are read as the stacked layout too
+        noBars == \A y \in 1..n : BarCols(g[y]) = {}
+        stacked == (\E y \in 1..n : IsSlashLine(g[y])) \/ (noBars /\ \E y \in 1..n : Len(g[y]) # Len(g[1]))
+        rules == {y \in 1..n : IsRuleLine(g[y])}
+        noSpans == \A i \in 1..Len(rows) : \A j \in 1..Len(CellsOf(rows[i])) : ~HasSpan(CellsOf(rows[i])[j])
+        ncols == IF rows = <<>> THEN 0 ELSE Len(CellsOf(rows[1]))
+        colW(j) == FoldLeft(LAMBDA a, r : Max2(a, IF j <= Len(CellsOf(r)) THEN OneLineW(CellsOf(r)[j]) ELSE 0), 0, rows)
+        fitsOneLine == noSpans /\ ~nested /\ ncols >= 1 /\ SumSeq([j \in 1..ncols |-> colW(j)]) + ncols - 1 <= run.w
+    IN IF stacked
+       THEN \* (e) stacked fallback: full-width rules and separators, every cell line within the width
+            /\ IsRuleLine(g[1]) /\ IsRuleLine(g[n])
+            /\ \A y \in 1..n : (IsSlashLine(g[y]) \/ (IsRuleLine(g[y]) /\ ~nested)) => Len(g[y]) = run.w
+            /\ \A y \in 1..n : Len(g[y]) <= run.w
+            /\ ~fitsOneLine
+       ELSE /\ \A y \in 1..n : Len(g[y]) = Len(g[1])                       \* (a)
+            /\ IsRuleLine(g[1]) /\ IsRuleLine(g[n])                           \* (b)
+            /\ ~nested => \A y \in 1..(n - 1) :                               \* (c) bars aligned within a band
+                             (y \notin rules /\ (y + 1) \notin rules) => BarCols(g[y]) = BarCols(g[y + 1])
+            /\ JunctionsOK(g)                                                   \* (d)
+P_C05(c) == \A i \in 1..Len(c.runs) : P_C05_run(c, c.runs[i])
+
+(* ---- C06: table cells stay in their columns, in order; columns with text get space ------------- *)
+\* meta.cells = sequence of [r, c0, c1, code, n]: the cell in source row r covering grid columns
+\* c0..c1 is filled with n copies of the unique character `code` (n = 0: empty cell)
+\* occurrences of the characters in `codes` in the grid, in one pass: code -> [cnt, y0, y1, x0, x1]
+OccStats(g, codes) ==
+  FoldLeft(LAMBDA a, y :
+     FoldLeft(LAMBDA b, x :
+        LET k == g[y][x] IN
+        IF k \notin codes THEN b
+        ELSE [b EXCEPT ![k] = [cnt |-> @.cnt + 1, y0 |-> IF @.cnt = 0 THEN y ELSE Min2(@.y0, y), y1 |-> Max2(@.y1, y),
+                                x0 |-> IF @.cnt = 0 THEN x ELSE Min2(@.x0, x), x1 |-> Max2(@.x1, x)]],
+        a, [x \in 1..Len(g[y]) |-> x]),
+     [k \in codes |-> [cnt |-> 0, y0 |-> 0, y1 |-> 0, x0 |-> 0, x1 |-> 0]], [y \in 1..Len(g) |-> y])
+P_C06_run(c, run) ==
+  (IsOk(run)) =>
+    LET g == GridOf(run.res)
+        n == Len(g)
+        full == SelectSeq(c.meta.cells, LAMBDA k : k.n > 0)
+        m == Len(full)
+        all == OccStats(g, {full[i].code : i \in 1..m})
+        st == [i \in 1..m |-> all[full[i].code]]
+        stacked == \E y \in 1..n : IsSlashLine(g[y])
+        present == \A i \in 1..m : st[i].cnt = full[i].n                                       \* (iv)
+    IN /\ present
+       /\ \A y \in 1..n : Len(g[y]) <= run.w                                                   \* (v)
+       /\ present =>
+            /\ \A i, j \in 1..m : full[i].r < full[j].r => st[i].y1 < st[j].y0               \* (i) rows in order
+            /\ ~stacked =>
+                 /\ \A i, j \in 1..m : full[i].c1 < full[j].c0 => st[i].x1 < st[j].x0        \* (ii) columns in order
+                 /\ \A i, j \in 1..m :                                                          \* (iii) a bar between neighbours
+                       (full[i].r = full[j].r /\ full[i].c1 + 1 = full[j].c0) =>
+                          \E x \in (st[i].x1 + 1)..(st[j].x0 - 1) :
+                             \A y \in Min2(st[i].y0, st[j].y0)..Max2(st[i].y1, st[j].y1) : At(g, y, x) = BAR
+P_C06(c) == \A i \in 1..Len(c.runs) : P_C06_run(c, c.runs[i])
 =============================================================================
